@@ -3895,3 +3895,412 @@ func c07QueryCancel(c *core.Ctx, root *packages.Package) {
 		c.Check(nReq > 0 && direct == token.NoPos && selOK, "C07.querycancel", recv+".doQuery", fn.Decl.Pos(), "%s.doQuery makes its request to the server in its own frame (or does not wait for the answer next to n.closing and n.aborting; requests %d, select with all three arms %v): while the request is outstanding the stop signal is not looked at — a server that never answers keeps StopTask waiting for ever with the lifecycle lock held, and no other task can be started or stopped", recv, nReq, selOK)
 	}
 }
+
+// c05NilZero (F132): the zero value of a lambda, regex, star or missing var is a typed nil pointer (ast.ZeroValue), and with
+// ignoreMissingVars — every template — such values travel through var declarations (`var g lambda; var f = g`). Wherever a
+// value of unknown origin is found to be one of those pointer types by a type assertion or a type switch, what is done with
+// the pointer in that arm is nil-safe: guarded by a nil test of the pointer, or a call of a method that tests its receiver
+// for nil first.
+func c05NilZero(c *core.Ctx) {
+	c.Rule("C05.nilzero", "A4: for every pointer type ast.ZeroValue returns as a typed nil ((*LambdaNode)(nil), (*regexp.Regexp)(nil), …): in every loaded package of the module an arm that has found a value of type interface{} to be of that type (v.(*T) with ok, case *T) dereferences the pointer — field selection or a method that does not start with a nil test of its receiver — only behind a nil test of that pointer: a template var that was set from a var without a value is such a nil")
+	ap := c.P.Pkg("tick/ast")
+	if ap == nil {
+		c.Undecided("C05.nilzero", "anchor:tick/ast", token.NoPos, "package not loaded")
+		return
+	}
+	zv := c.P.FindFunc("tick/ast", "", "ZeroValue")
+	if zv == nil {
+		c.Undecided("C05.nilzero", "anchor:ZeroValue", token.NoPos, "function not found")
+		return
+	}
+	// the typed nils
+	nilTypes := map[string]bool{}
+	ast.Inspect(zv.Decl.Body, func(nd ast.Node) bool {
+		ret, ok := nd.(*ast.ReturnStmt)
+		if !ok || len(ret.Results) != 1 {
+			return true
+		}
+		call, ok := ast.Unparen(ret.Results[0]).(*ast.CallExpr)
+		if !ok || len(call.Args) != 1 {
+			return true
+		}
+		if id, ok := ast.Unparen(call.Args[0]).(*ast.Ident); !ok || id.Name != "nil" {
+			return true
+		}
+		if tv, ok := ap.TypesInfo.Types[call.Fun]; ok && tv.IsType() {
+			if _, isPtr := tv.Type.Underlying().(*types.Pointer); isPtr {
+				nilTypes[types.TypeString(tv.Type, nil)] = true
+			}
+		}
+		return true
+	})
+	c.Floor("C05.nilzero", "typed nil zero values", len(nilTypes), 3)
+	// nil-safe methods: first statement tests the receiver for nil
+	nilSafe := func(m *types.Func) bool {
+		if m == nil {
+			return false
+		}
+		d := declOfFunc(c.P, m)
+		if d == nil || d.Decl.Body == nil {
+			// regexp methods and the like are not nil-safe
+			return false
+		}
+		if d.Decl.Recv == nil || len(d.Decl.Recv.List[0].Names) == 0 {
+			return true // the receiver is not used
+		}
+		robj := d.Pkg.TypesInfo.Defs[d.Decl.Recv.List[0].Names[0]]
+		l := an.Effective(d.Decl.Body.List)
+		if len(l) == 0 {
+			return true
+		}
+		tests := func(e ast.Expr) bool {
+			found := false
+			ast.Inspect(e, func(x ast.Node) bool {
+				if be, ok := x.(*ast.BinaryExpr); ok && (be.Op == token.EQL || be.Op == token.NEQ) {
+					if id, ok := ast.Unparen(be.X).(*ast.Ident); ok && d.Pkg.TypesInfo.Uses[id] == robj {
+						if nid, ok := ast.Unparen(be.Y).(*ast.Ident); ok && nid.Name == "nil" {
+							found = true
+						}
+					}
+				}
+				return true
+			})
+			return found
+		}
+		switch s := l[0].(type) {
+		case *ast.IfStmt:
+			return tests(s.Cond)
+		case *ast.ReturnStmt:
+			for _, r := range s.Results {
+				if tests(r) {
+					return true
+				}
+			}
+		}
+		// a method that never touches its receiver's fields
+		uses := false
+		ast.Inspect(d.Decl.Body, func(x ast.Node) bool {
+			if sel, ok := x.(*ast.SelectorExpr); ok {
+				if id, ok := ast.Unparen(sel.X).(*ast.Ident); ok && d.Pkg.TypesInfo.Uses[id] == robj {
+					uses = true
+				}
+			}
+			return true
+		})
+		return !uses
+	}
+	n := 0
+	for _, pkg := range c.P.ModPkgs {
+		info := pkg.TypesInfo
+		for _, f := range core.AllFuncs(pkg) {
+			name := f.Decl.Name.Name
+			if r := core.RecvName(f.Decl); r != "" {
+				name = r + "." + name
+			}
+			checkArm := func(obj types.Object, tname string, body ast.Node, pos token.Pos) {
+				if obj == nil || body == nil {
+					return
+				}
+				n++
+				c.Analysed(f)
+				bad := token.NoPos
+				what := ""
+				// `if p == nil || … { return }` guards what follows it in the block
+				leavesOnNil := func(st ast.Stmt) bool {
+					is, ok := st.(*ast.IfStmt)
+					if !ok {
+						return false
+					}
+					l := an.Effective(is.Body.List)
+					if len(l) == 0 {
+						return false
+					}
+					if _, ok := l[len(l)-1].(*ast.ReturnStmt); !ok {
+						return false
+					}
+					found := false
+					var ors func(e ast.Expr)
+					ors = func(e ast.Expr) {
+						e = ast.Unparen(e)
+						if be, ok := e.(*ast.BinaryExpr); ok {
+							if be.Op == token.LOR {
+								ors(be.X)
+								ors(be.Y)
+								return
+							}
+							if be.Op == token.EQL {
+								if id, ok := ast.Unparen(be.X).(*ast.Ident); ok && info.Uses[id] == obj {
+									if nid, ok := ast.Unparen(be.Y).(*ast.Ident); ok && nid.Name == "nil" {
+										found = true
+									}
+								}
+							}
+						}
+					}
+					ors(is.Cond)
+					return found
+				}
+				var walk func(nd ast.Node, guarded bool)
+				walk = func(nd ast.Node, guarded bool) {
+					if blk, ok := nd.(*ast.BlockStmt); ok {
+						g := guarded
+						for _, st := range blk.List {
+							if leavesOnNil(st) {
+								// the test itself mentions the pointer only in comparisons
+								g = true
+								continue
+							}
+							walk(st, g)
+						}
+						return
+					}
+					ast.Inspect(nd, func(x ast.Node) bool {
+						switch s := x.(type) {
+						case *ast.BlockStmt:
+							walk(s, guarded)
+							return false
+						case *ast.IfStmt:
+							// if p != nil { … } else { … }   /   if p == nil { return }
+							g := false
+							if be, ok := ast.Unparen(s.Cond).(*ast.BinaryExpr); ok && (be.Op == token.NEQ || be.Op == token.EQL) {
+								if id, ok := ast.Unparen(be.X).(*ast.Ident); ok && info.Uses[id] == obj {
+									if nid, ok := ast.Unparen(be.Y).(*ast.Ident); ok && nid.Name == "nil" {
+										g = true
+										if be.Op == token.NEQ {
+											walk(s.Body, true)
+											if s.Else != nil {
+												walk(s.Else, guarded)
+											}
+										} else {
+											walk(s.Body, guarded)
+											if s.Else != nil {
+												walk(s.Else, true)
+											}
+										}
+									}
+								}
+							}
+							if g {
+								return false
+							}
+						case *ast.SelectorExpr:
+							id, ok := ast.Unparen(s.X).(*ast.Ident)
+							if !ok || info.Uses[id] != obj || guarded {
+								return true
+							}
+							if sel, ok := info.Selections[s]; ok {
+								switch sel.Kind() {
+								case types.FieldVal:
+									bad, what = s.Pos(), types.ExprString(s)
+								case types.MethodVal:
+									if m, ok := sel.Obj().(*types.Func); ok && !nilSafe(m) {
+										bad, what = s.Pos(), types.ExprString(s)+"()"
+									}
+								}
+							}
+						}
+						return true
+					})
+				}
+				walk(body, false)
+				c.Check(bad == token.NoPos, "C05.nilzero", fmt.Sprintf("%s#%s@%d", name, tname, n), pos, "%s has found a value to be a %s and uses %s without a nil test: the zero value of such a var is a typed nil (ast.ZeroValue), and in a template `var g lambda` then `var f = g` makes f one — the request that shows the template's vars panics", name, tname, what)
+			}
+			ast.Inspect(f.Decl.Body, func(nd ast.Node) bool {
+				switch s := nd.(type) {
+				case *ast.IfStmt:
+					// if x, ok := v.(*T); ok { … }
+					as, ok := s.Init.(*ast.AssignStmt)
+					if !ok || len(as.Lhs) != 2 || len(as.Rhs) != 1 {
+						return true
+					}
+					ta, ok := ast.Unparen(as.Rhs[0]).(*ast.TypeAssertExpr)
+					if !ok || ta.Type == nil || !emptyIface(info.TypeOf(ta.X)) {
+						return true
+					}
+					tn := types.TypeString(info.TypeOf(ta.Type), nil)
+					if !nilTypes[tn] {
+						return true
+					}
+					if id, ok := as.Lhs[0].(*ast.Ident); ok && id.Name != "_" {
+						checkArm(info.Defs[id], tn, s.Body, s.Pos())
+					}
+				case *ast.TypeSwitchStmt:
+					as, ok := s.Assign.(*ast.AssignStmt)
+					if !ok {
+						return true
+					}
+					// values of unknown origin only (interface{}): a syntax tree node handed over by the parser is never nil
+					if ta, ok := ast.Unparen(as.Rhs[0]).(*ast.TypeAssertExpr); !ok || !emptyIface(info.TypeOf(ta.X)) {
+						return true
+					}
+					for _, cc := range s.Body.List {
+						cl := cc.(*ast.CaseClause)
+						if len(cl.List) != 1 {
+							continue
+						}
+						tn := types.TypeString(info.TypeOf(cl.List[0]), nil)
+						if !nilTypes[tn] {
+							continue
+						}
+						obj := info.Implicits[cl]
+						_ = as
+						checkArm(obj, tn, &ast.BlockStmt{List: cl.Body}, cl.Pos())
+					}
+				}
+				return true
+			})
+		}
+	}
+	c.Floor("C05.nilzero", "arms that have found a typed-nil-capable pointer", n, 2)
+}
+
+func emptyIface(t types.Type) bool {
+	if t == nil {
+		return false
+	}
+	it, ok := t.Underlying().(*types.Interface)
+	return ok && it.NumMethods() == 0
+}
+
+// c05PropRead (F133): what package tick can establish about a property — that it is a readable field — it can establish for
+// its own ReflectionDescriber only. A node that describes itself (pipeline.UDFNode) answers HasProperty for names that can only
+// be set and hands the read on to reflection, which panics on the missing field. Every read through the SelfDescriber
+// interface in tick therefore happens in a frame that recovers.
+func c05PropRead(c *core.Ctx) {
+	c.Rule("C05.propread", "A9a: in package tick every call of the interface method SelfDescriber.Property — a describer the package does not know — stands in a function or function literal whose deferred function recovers unconditionally and does not re-panic: `var u = stream|from()@myudf()` then `var f = u.field` (an option of the UDF, which can only be set) otherwise panics in reflection outside the recover around function calls, and defining the task panics")
+	pkg := c.P.Pkg("tick")
+	if pkg == nil {
+		c.Undecided("C05.propread", "anchor:tick", token.NoPos, "package not loaded")
+		return
+	}
+	info := pkg.TypesInfo
+	n := 0
+	for _, f := range core.AllFuncs(pkg) {
+		// innermost function literal or declaration around a node
+		var frames []ast.Node
+		var visit func(nd ast.Node)
+		visit = func(nd ast.Node) {
+			ast.Inspect(nd, func(x ast.Node) bool {
+				switch s := x.(type) {
+				case *ast.FuncLit:
+					frames = append(frames, s)
+					visit(s.Body)
+					frames = frames[:len(frames)-1]
+					return false
+				case *ast.CallExpr:
+					sel, ok := s.Fun.(*ast.SelectorExpr)
+					if !ok || sel.Sel.Name != "Property" || len(s.Args) != 1 {
+						return true
+					}
+					se, ok := info.Selections[sel]
+					if !ok {
+						return true
+					}
+					if _, isIface := se.Recv().Underlying().(*types.Interface); !isIface {
+						return true
+					}
+					n++
+					c.Analysed(f)
+					var body *ast.BlockStmt
+					if len(frames) > 0 {
+						body = frames[len(frames)-1].(*ast.FuncLit).Body
+					} else {
+						body = f.Decl.Body
+					}
+					rec := false
+					for _, st := range body.List {
+						if ds, ok := st.(*ast.DeferStmt); ok {
+							if dl, ok := ast.Unparen(ds.Call.Fun).(*ast.FuncLit); ok {
+								if uncond, _ := recoverPlacement(info, dl.Body); uncond && !repanics(info, dl.Body) {
+									rec = true
+								}
+							}
+						}
+					}
+					c.Check(rec, "C05.propread", fmt.Sprintf("%s#Property%d", f.Decl.Name.Name, n), s.Pos(), "%s reads a property through the SelfDescriber interface outside a frame that recovers: a describer of another package may answer HasProperty for a name it cannot read (the options of a UDF node) and panic in reflection — the panic leaves tick.Evaluate and defining the task panics", f.Decl.Name.Name)
+				}
+				return true
+			})
+		}
+		visit(f.Decl.Body)
+	}
+	c.Floor("C05.propread", "reads through SelfDescriber.Property", n, 1)
+}
+
+// c05AlertID (F134): the ID template is executed on the tags of every point, like the message template on its fields (F107):
+// where rendering the ID failed, alertState.Point, alertState.BufferedBatch and AlertNode.NewGroup count the error and go on —
+// none of them returns it, which would end the node and the task on one point.
+func c05AlertID(c *core.Ctx, root *packages.Package) {
+	c.Rule("C05.alertid", "A1: F134: in alertState.Point, alertState.BufferedBatch and AlertNode.NewGroup the arm that handles a failed renderID counts the error (incrementErrorCount) and does not return a non-nil error: an ID template such as {{ slice (index .Tags \"host\") 0 6 }} fails on one point's tags only")
+	info := root.TypesInfo
+	for _, m := range [][2]string{{"alertState", "Point"}, {"alertState", "BufferedBatch"}, {"AlertNode", "NewGroup"}} {
+		fn := c.Need("C05.alertid", "", m[0], m[1])
+		if fn == nil {
+			continue
+		}
+		c.Analysed(fn)
+		var errObj types.Object
+		ast.Inspect(fn.Decl.Body, func(nd ast.Node) bool {
+			as, ok := nd.(*ast.AssignStmt)
+			if !ok || len(as.Lhs) != 2 || len(as.Rhs) != 1 {
+				return true
+			}
+			call, ok := ast.Unparen(as.Rhs[0]).(*ast.CallExpr)
+			if !ok {
+				return true
+			}
+			if cal := core.Callee(info, call); cal == nil || cal.Name() != "renderID" {
+				return true
+			}
+			if id, ok := as.Lhs[1].(*ast.Ident); ok {
+				errObj = info.Defs[id]
+				if errObj == nil {
+					errObj = info.Uses[id]
+				}
+			}
+			return true
+		})
+		construct := m[0] + "." + m[1]
+		if errObj == nil {
+			c.Undecided("C05.alertid", construct, fn.Decl.Pos(), "the renderID call was not found")
+			continue
+		}
+		handled, counted, returnsErr := false, false, token.NoPos
+		ast.Inspect(fn.Decl.Body, func(nd ast.Node) bool {
+			is, ok := nd.(*ast.IfStmt)
+			if !ok {
+				return true
+			}
+			be, ok := ast.Unparen(is.Cond).(*ast.BinaryExpr)
+			if !ok || be.Op != token.NEQ {
+				return true
+			}
+			id, ok := ast.Unparen(be.X).(*ast.Ident)
+			if !ok || info.Uses[id] != errObj {
+				return true
+			}
+			if handled {
+				return true // a later err of the same name
+			}
+			handled = true
+			ast.Inspect(is.Body, func(m ast.Node) bool {
+				switch x := m.(type) {
+				case *ast.CallExpr:
+					if cal := core.Callee(info, x); cal != nil && cal.Name() == "incrementErrorCount" {
+						counted = true
+					}
+				case *ast.ReturnStmt:
+					if len(x.Results) > 0 {
+						last := ast.Unparen(x.Results[len(x.Results)-1])
+						if lid, ok := last.(*ast.Ident); !ok || lid.Name != "nil" {
+							returnsErr = x.Pos()
+						}
+					}
+				}
+				return true
+			})
+			return true
+		})
+		c.Check(handled && counted && returnsErr == token.NoPos, "C05.alertid", construct, fn.Decl.Pos(), "%s returns the error of the ID template (or does not count it; handled %v, counted %v): the template is executed on the tags of every point, one point on which it fails — a tag value shorter than the slice it takes — ends the alert node and with it the task", construct, handled, counted)
+	}
+}
